@@ -99,6 +99,10 @@ func checkPathFrame(sink *vc.Sink, fns []*ssa.Function, pos func(ssa.Instruction
 				default:
 					return "stored at " + pos(r)
 				}
+			case *ssa.IndexAddr:
+				// address of an element of the variadic argument array (v is the
+				// array): only the stores through it matter, and those are seen from
+				// the stored value
 			case *ssa.Slice:
 				if bad := follow(r, seen); bad != "" {
 					return bad
